@@ -86,12 +86,17 @@ def search(obname, limit=50000):
     src = _qscenarios() if obname.startswith("quantis") else (_scenarios() if obname.startswith("retis") else itertools.chain(_scenarios(), _qscenarios()))
     for k, w in enumerate(src):
         r = _run(w)
-        if r["reproduced"]:
+        if r["reproduced"] and (obname.startswith("native_crosscheck") or relevant(obname, {"native": r})):
             if any(c(w, r) for c in KNOWN_CLASSES):
                 known = known or {"witness": w, "native": r}
             else:
                 return {"witness": w, "native": r}
     return known
+
+
+def relevant(obname, found):
+    from vf.native_moves import relevant as rel
+    return rel(obname, found)
 
 
 def replay(obname, w):
